@@ -356,7 +356,7 @@ static std::vector<std::string> g_history;   // the last cycles of this process,
 
 static Outcome cycle(const DataSet& d, const Opt& o) {
     ensure_pools();
-    g_history.push_back(case_spec(d, o)); if (g_history.size() > 5) g_history.erase(g_history.begin());
+    g_history.push_back(case_spec(d, o)); if (g_history.size() > 40) g_history.erase(g_history.begin());
     Outcome out;
     const std::string path = g_dir + "/f." + FMT[o.fmt] + ZIP[o.zip];
     const Expect e = carry(d, o);
@@ -472,8 +472,9 @@ static Outcome cycle(const DataSet& d, const Opt& o) {
 
 // ================================================================================================
 // class keys, minimisation, reporting
-static DataSet select(const DataSet& d, const std::vector<size_t>& sel) {
-    DataSet r; r.header = d.header; r.feed = d.feed; r.name = d.name; r.keyhint = d.keyhint;
+static std::string sel_string(const std::vector<size_t>& sel);
+static DataSet select(const DataSet& d, const std::vector<size_t>& sel) {   // sel: indexes into the generated data set
+    DataSet r; r.header = d.header; r.feed = d.feed; r.name = d.name; r.keyhint = d.keyhint; r.sel = sel_string(sel);
     for (size_t i : sel) if (i < d.objs.size()) r.objs.push_back(d.objs[i]);
     return r;
 }
@@ -569,15 +570,24 @@ static void report(const DataSet& d, const std::vector<size_t>* sel, const Opt& 
     std::string detail = "options: " + opt_human(o) + " | data set " + d.name + (sel ? " objects " + sel_string(*sel) : "") + " (" + std::to_string(t.objs.size()) + " objects) | " + r.detail;
     if (t.objs.size() == 1 && r.kind != Outcome::mismatch) detail += " | object: " + show(t.objs[0]);
     std::string spec = case_spec(t, o);
-    static std::map<std::string, unsigned> printed;
-    if (!g_in_replay && printed[key]++ < 3) {
-        ++C["findings_confirmed_in_fresh_process"];
-        if (!replay_in_fresh_process(spec).count(key)) {
-            std::string chain; for (const auto& h : g_history) if (h != spec || &h != &g_history.back()) chain += (chain.empty() ? "" : "|") + h;
-            const std::string spec2 = spec + ";after=" + benum::hex(chain);
-            if (replay_in_fresh_process(spec2).count(key + AFTER)) { key += AFTER; spec = spec2; detail += " | not reproduced by this file alone in a fresh process; reproduced after " + chain; }
-            else { key = "not-reproducible-in-a-fresh-process/" + key; detail += " | neither this file alone nor the last files of this process reproduce it"; }
-        }
+    static std::map<std::string, unsigned> confirmations;
+    static std::map<std::string, int> form;       // how the class was last confirmed: 0 alone, 1 after earlier files, 2 not at all
+    if (!g_in_replay) {
+        // the files handled before this one, newest last, as many as fit into a replay spec (hex doubles the length)
+        std::string chain; size_t first = g_history.size() - (!g_history.empty() && g_history.back() == spec ? 1 : 0), last = first, len = 0;
+        while (first > 0 && len + g_history[first - 1].size() + 1 <= 1700) { --first; len += g_history[first].size() + 1; }
+        for (size_t i = first; i < last; ++i) chain += (chain.empty() ? "" : "|") + g_history[i];
+        const std::string spec2 = spec + ";after=" + benum::hex(chain);
+        int f = 0;
+        if (confirmations[key]++ < 3) {
+            ++C["findings_confirmed_in_fresh_process"];
+            if (replay_in_fresh_process(spec).count(key)) f = 0;
+            else if (replay_in_fresh_process(spec2).count(key + AFTER)) f = 1;
+            else f = 2;
+            form[key] = f;
+        } else f = form[key];
+        if (f == 1) { key += AFTER; spec = spec2; detail += " | not reproduced by this file alone in a fresh process; reproduced after the " + std::to_string(last - first) + " files handled before it"; }
+        if (f == 2) { key = "not-reproducible-in-a-fresh-process/" + key; detail += " | neither this file alone nor the files handled before it reproduce the failure in a fresh process"; }
     }
     V.report(key, detail, spec);
 }
